@@ -34,7 +34,19 @@ const (
 	evDisconnect                     // TCP dropped: Selected/NotSelected -> NotConnected
 	evClose                          // voluntary Close: any state -> NotConnected
 	evT7Timeout                      // T7 NOT-SELECTED dwell expired: NotSelected -> NotConnected (no-op otherwise)
+
+	// Commit echoes: enqueued by CommitConnected / CommitSelected / CommitSelectLost AFTER their CAS
+	// has already changed state. An echo only REPORTS the committed state (deduped reaction/notify);
+	// step() never stores for it, so a lagging supervisor can neither replay nor undo a commit.
+	evTCPUpCommitted
+	evSelectAcceptedCommitted
+	evSelectLostCommitted
 )
+
+// isCommitEcho reports whether ev is the echo of a synchronous commit (see above).
+func isCommitEcho(ev fsmEvent) bool {
+	return ev == evTCPUpCommitted || ev == evSelectAcceptedCommitted || ev == evSelectLostCommitted
+}
 
 // stateClosedBit is OR-ed into the atomic state word by step() when it latches evClose. State()
 // masks it out (the word then reads NotConnected), but the three synchronous commits CAS on the
@@ -65,6 +77,7 @@ type stateChange struct {
 // makes progress (spec §5.3, Codex rounds 4-5).
 type supervisor struct {
 	state         atomic.Uint32              // stores a ConnState; lock-free hot-path reads + State()
+	pendingUps    atomic.Int32               // TCP-up commit echoes enqueued and not yet taken by step() (see step)
 	lastReacted   ConnState                  // run-owned; dedups reactions/notify (H3; tolerates the H2 pre-commit)
 	closed        bool                       // run-owned; LATCHED true once evClose is processed (I2) — later events ignored
 	events        chan fsmEvent              // SOLE reader is run(); GUARANTEED command queue (inject blocks, never drops)
@@ -148,15 +161,15 @@ func newSupervisor(react func(prev, next ConnState), handlers *atomic.Pointer[[]
 // committed Selected session survives (see TestSupervisor_T7TimeoutLosesTieToCommitSelected).
 func transition(cur ConnState, ev fsmEvent) (ConnState, bool) {
 	switch ev {
-	case evTCPUp:
+	case evTCPUp, evTCPUpCommitted:
 		if cur == NotConnectedState || cur == NotSelectedState {
 			return NotSelectedState, true
 		}
-	case evSelectAccepted:
+	case evSelectAccepted, evSelectAcceptedCommitted:
 		if cur == NotSelectedState || cur == SelectedState {
 			return SelectedState, true
 		}
-	case evSelectLost:
+	case evSelectLost, evSelectLostCommitted:
 		// NotSelected is a legal (no-op-store) entry — symmetric with evTCPUp/evSelectAccepted — so
 		// the synchronous CommitSelectLost pre-commit (Selected->NotSelected) still fires the deduped
 		// entering-NotSelected reaction when step() later processes the injected evSelectLost (I3).
@@ -196,7 +209,8 @@ func (s *supervisor) State() ConnState {
 // only transition out of NotConnected is evTCPUp itself, so the CAS always succeeds in practice).
 func (s *supervisor) CommitConnected() (committed bool) {
 	if s.state.CompareAndSwap(uint32(NotConnectedState), uint32(NotSelectedState)) {
-		s.inject(evTCPUp)
+		s.pendingUps.Add(1)
+		s.inject(evTCPUpCommitted)
 
 		return true
 	}
@@ -213,7 +227,7 @@ func (s *supervisor) CommitConnected() (committed bool) {
 // Selected is a no-op returning false.
 func (s *supervisor) CommitSelected() (committed bool) {
 	if s.state.CompareAndSwap(uint32(NotSelectedState), uint32(SelectedState)) {
-		s.inject(evSelectAccepted)
+		s.inject(evSelectAcceptedCommitted)
 
 		return true
 	}
@@ -233,7 +247,7 @@ func (s *supervisor) CommitSelected() (committed bool) {
 // whether THIS call performed the commit; a call when not Selected is a no-op returning false.
 func (s *supervisor) CommitSelectLost() (committed bool) {
 	if s.state.CompareAndSwap(uint32(SelectedState), uint32(NotSelectedState)) {
-		s.inject(evSelectLost)
+		s.inject(evSelectLostCommitted)
 
 		return true
 	}
@@ -281,6 +295,10 @@ func (s *supervisor) step(ev fsmEvent) {
 	// leaving State() misreporting and suppressing the terminal NotConnected. requestClose is only
 	// ever terminal (Close / failed-Open rollback, both under lifeMu), so latching cannot drop a
 	// legitimate later transition — the generation is ending.
+	if ev == evTCPUpCommitted {
+		s.pendingUps.Add(-1) // this TCP-up echo is no longer queued behind any other event
+	}
+
 	if s.closed {
 		return
 	}
@@ -301,6 +319,30 @@ func (s *supervisor) step(ev fsmEvent) {
 	// flap the FSM (spuriously Rejecting a legitimately-selected peer's next frame, the efb220b class).
 	// Same supersession rationale as the evT7Timeout CAS below.
 	if ev == evSelectLost && cur == SelectedState {
+		return
+	}
+
+	// A disconnect / T7 expiry taken while a TCP-up commit echo is still queued was injected BEFORE
+	// that TCP-up was committed (FIFO): it belongs to a previous connection generation and must not
+	// tear down — or move State() of — the connection that has come up since.
+	if (ev == evDisconnect || ev == evT7Timeout) && s.pendingUps.Load() > 0 {
+		return
+	}
+
+	// A commit echo never stores: the committer's CAS already changed state, and a store here —
+	// computed from a state loaded AFTER later commits — would replay an old commit over a newer one
+	// (TCP-up, select and deselect committed back to back while this goroutine lagged — a peer that
+	// pipelines Select.req and Deselect.req: the stale select-accepted event re-stored Selected over
+	// the committed NotSelected and the following select-lost event was then abandoned, leaving
+	// State() Selected for a deselected session). An echo only reports: it fires the deduped
+	// reaction/notify iff the state it announces is still the current one; if state has moved on,
+	// the event that moved it does the reporting.
+	if isCommitEcho(ev) {
+		if next, ok := transition(cur, ev); ok && next == cur && next != s.lastReacted {
+			s.fireTransition(s.lastReacted, next)
+			s.lastReacted = next
+		}
+
 		return
 	}
 
